@@ -295,7 +295,7 @@ func execHist(c *drv.Ctx, d M) bool {
 			rt, r2, found := b.ctx.RouteInfo(req)
 			next = r2
 			if found {
-				ret = []string{rt.PathPattern, dash(rt.Params.Get("id"))}
+				ret = append([]string{rt.PathPattern, dash(rt.Params.Get("id"))}, routeView(rt)...)
 			} else {
 				ret = []string{"notfound"}
 			}
@@ -317,8 +317,15 @@ func execHist(c *drv.Ctx, d M) bool {
 			f, r2 := b.ctx.ResponseFormat(req, offers)
 			next = r2
 			ret = []string{f}
-		case "Authorize":
-			p, r2, err := b.ctx.Authorize(req, route)
+		case "Authorize", "AuthorizeFresh":
+			rt := route
+			if name == "AuthorizeFresh" {
+				// a MatchedRoute value of the asker's own, as a middleware in front of the secured handler has
+				if fresh, found := b.ctx.LookupRoute(req); found {
+					rt = fresh
+				}
+			}
+			p, r2, err := b.ctx.Authorize(req, rt)
 			next = r2
 			switch {
 			case err != nil:
